@@ -71,6 +71,7 @@ class WebSocketClient(event.Producer, metaclass=abc.ABCMeta):
 
     def schedule_resubscription(self, channels: List[str]):
         self._pending_subscriptions.update(channels)
+        self._subscribe_request.set()
 
     async def on_error(self, error: Any):
         logger.error(logs.StructuredMessage("Error", src=self, error=error))
